@@ -18,7 +18,10 @@ from collections import Counter
 TARGET = "puan.logic.plog"
 CONTRACTS = {
     # ---- constructors (C04: every connective is its kernel form) ----------------------------------------
-    "AtLeast.__init__": {"props": ["C03", "C04", "C05", "C06", "C08", "C10", "C16"], "group": "E0",
+    "AtLeast.__init__": {"props": ["C03", "C04", "C05", "C06", "C08", "C10", "C15", "C16"], "group": "E0",
+                         "attrs_for": {"C03": ["value", "sign", "propositions", "variable"], "C04": ["value", "sign", "propositions", "variable"],
+                                       "C06": ["value", "sign", "propositions", "variable"], "C08": ["value", "sign", "propositions", "variable"],
+                                       "C10": ["value", "sign", "propositions", "variable"], "C15": ["generated_id", "variable"]},
                          "why": "sign default = + iff value > 0; sign in {-1,+1} or raise; children = fresh sorted list, "
                                 "strings become boolean variables; own variable bounds in {(0,0),(0,1),(1,1)}"},
     "AtMost.__init__": {"props": ["C04"], "why": "at most k  ==  -sum >= -k"},
@@ -50,11 +53,11 @@ CONTRACTS = {
     "AtLeast.equation_bounds": {"props": ["C06"], "why": "range of sign*sum - value"},
     "AtLeast.is_tautology": {"props": ["C06"], "why": "min(sign*sum) - value >= 0"},
     "AtLeast.is_contradiction": {"props": ["C06"], "why": "max(sign*sum) - value <= -1"},
-    "AtLeast.assume": {"props": ["C01", "C03", "C06", "C07"], "split": "sign",
+    "AtLeast.assume": {"props": ["C01", "C03", "C04", "C05", "C06", "C07"], "split": "sign",
                        "why": "K1 own-id override, K2 constant short-circuit, K3 all children same dict, K4 interval kernel, "
                               "K5 keeps value/sign/id, H4 no child loses its definition"},
-    "AtLeast.evaluate": {"props": ["C01", "C03"], "why": "evaluate = entry of own id in evaluate_propositions"},
-    "AtLeast.evaluate_propositions": {"props": ["C01", "C03"], "why": "{x.id: out(x.bounds)} over flatten() of the assumed model"},
+    "AtLeast.evaluate": {"props": ["C01", "C03", "C04", "C05"], "why": "evaluate = entry of own id in evaluate_propositions"},
+    "AtLeast.evaluate_propositions": {"props": ["C01", "C03", "C04", "C05"], "why": "{x.id: out(x.bounds)} over flatten() of the assumed model"},
     "AtLeast.reduce": {"props": ["C08"], "split": "sign",
                        "why": "R1 own constant; R2 children reduced; R3 kernel; R4 constant result; R5 threshold minus sign*constants"},
     # ---- polyhedron bridge (C01) and solver bridge (C15) -----------------------------------------------------
